@@ -384,3 +384,91 @@ def any_positions(model, v, t, path='$', _depth=0):
                         '%s.%s' % (path, p['name']), _depth + 1)
             if '_yatiml_extra' in args:
                 yield path + '._yatiml_extra', args['_yatiml_extra']
+
+
+# ---------------------------------------------------------------------------
+# JSON-able encoding of values (for replay files); sharing is kept
+
+def encode_value(v, _memo=None):
+    import collections as _c
+    if _memo is None:
+        _memo = {}
+    if isinstance(v, enum.Enum):
+        return {'$enum': type(v).__name__, 'member': v.name}
+    if v is None or isinstance(v, (bool, int)):
+        return v
+    if isinstance(v, float):
+        return {'$f': repr(v)}
+    if type(v) is str:
+        if plain.has_surrogate(v) or not v.isprintable():
+            return {'$s': [ord(c) for c in v]}
+        return v
+    if isinstance(v, datetime.datetime):
+        return {'$dt': v.isoformat()}
+    if isinstance(v, datetime.date):
+        return {'$d': v.isoformat()}
+    if isinstance(v, pathlib.PurePath):
+        return {'$p': str(v)}
+    if isinstance(v, (str, _c.UserString, yatiml.String)):
+        return {'$strlike': type(v).__name__, 's': encode_value(str(v))}
+    if id(v) in _memo:
+        return {'$shared': _memo[id(v)]}
+    _memo[id(v)] = len(_memo)
+    n = _memo[id(v)]
+    args = getattr(v, '_v_args', None)
+    if args is not None:
+        return {'$inst': type(v).__name__, 'id': n,
+                'args': [[k, encode_value(x, _memo)] for k, x in args.items()]}
+    if isinstance(v, dict):
+        return {'$m': [[encode_value(k, _memo), encode_value(x, _memo)]
+                       for k, x in v.items()], 'id': n,
+                'ordered': isinstance(v, _c.OrderedDict)}
+    if isinstance(v, (list, tuple)):
+        return {'$l': [encode_value(x, _memo) for x in v], 'id': n}
+    if isinstance(v, bytes):
+        return {'$b': v.hex()}
+    raise TypeError(type(v))
+
+
+def decode_value(model, e, _memo=None):
+    import collections as _c
+    if _memo is None:
+        _memo = {}
+    if not isinstance(e, dict):
+        return e
+    if '$enum' in e:
+        return model.classes[e['$enum']][e['member']]
+    if '$f' in e:
+        return float(e['$f'])
+    if '$s' in e:
+        return ''.join(chr(c) for c in e['$s'])
+    if '$dt' in e:
+        return datetime.datetime.fromisoformat(e['$dt'])
+    if '$d' in e:
+        return datetime.date.fromisoformat(e['$d'])
+    if '$p' in e:
+        return pathlib.Path(e['$p'])
+    if '$b' in e:
+        return bytes.fromhex(e['$b'])
+    if '$strlike' in e:
+        return model.classes[e['$strlike']](decode_value(model, e['s']))
+    if '$shared' in e:
+        return _memo[e['$shared']]
+    if '$inst' in e:
+        kwargs = _c.OrderedDict(
+            (k, decode_value(model, x, _memo)) for k, x in e['args'])
+        obj = model.classes[e['$inst']](**kwargs)
+        _memo[e['id']] = obj
+        return obj
+    if '$m' in e:
+        d = _c.OrderedDict() if e.get('ordered') else {}
+        _memo[e['id']] = d
+        for k, x in e['$m']:
+            d[decode_value(model, k, _memo)] = decode_value(model, x, _memo)
+        return d
+    if '$l' in e:
+        lst = []
+        _memo[e['id']] = lst
+        lst.extend(decode_value(model, x, _memo) for x in e['$l'])
+        return lst
+    raise ValueError(e)
